@@ -47,6 +47,8 @@ pub struct Stats {
     pub scenarios_capped: u64,
     pub machinery_errors: u64,
     pub max_schedule_len: u64,
+    #[serde(default)]
+    pub premises: u64,
 }
 
 impl Stats {
@@ -65,6 +67,7 @@ impl Stats {
         self.scenarios_capped += o.scenarios_capped;
         self.machinery_errors += o.machinery_errors;
         self.max_schedule_len = self.max_schedule_len.max(o.max_schedule_len);
+        self.premises += o.premises;
     }
 }
 
@@ -227,6 +230,7 @@ pub fn explore_scenario(
             }));
         }
         let v = monitor(scn, &ct);
+        stats.premises += crate::mon::take_premises();
         if !v.is_empty() {
             // replay twice: a violation must reproduce identically before it is reported
             let (r2, d2) = run_schedule(scn, &chosen);
@@ -290,4 +294,129 @@ pub fn explore_scenario(
         set_sig: seth.finish(),
         trace_hashes: hs,
     }
+}
+
+// ------------------------------------------------------------------ differential exploration
+
+pub struct Collected {
+    /// schedule -> hash of the projected trace, in DFS order
+    pub by_schedule: std::collections::BTreeMap<Vec<u16>, u64>,
+    pub exhaustive: bool,
+    pub sample_lines: std::collections::HashMap<u64, Vec<String>>,
+}
+
+fn hash_lines(l: &[String]) -> u64 {
+    let mut h = std::collections::hash_map::DefaultHasher::new();
+    l.hash(&mut h);
+    h.finish()
+}
+
+/// Explore all schedules of `scn`, recording the projected trace of each execution.
+pub fn explore_collect(scn: &Arc<Scenario>, lim: &Limits, project: &dyn Fn(&[Ev]) -> Vec<String>, stats: &mut Stats, keep_lines: bool) -> Collected {
+    let mut stack: Vec<Vec<u16>> = vec![vec![]];
+    let mut by_schedule = std::collections::BTreeMap::new();
+    let mut sample_lines = std::collections::HashMap::new();
+    let mut seen: HashSet<u64> = HashSet::new();
+    let mut execs = 0u64;
+    let mut pruned = 0u64;
+    let mut capped = false;
+    stats.scenarios += 1;
+    while let Some(prefix) = stack.pop() {
+        if execs >= lim.max_execs {
+            capped = true;
+            break;
+        }
+        let (res, diverged) = run_schedule(scn, &prefix);
+        execs += 1;
+        stats.executions += 1;
+        stats.states += res.points;
+        stats.transitions += res.actions;
+        if diverged || res.error.is_some() {
+            stats.machinery_errors += 1;
+            eprintln!("MACHINERY scenario={} schedule={:?} diverged={} error={:?}", scn.name, prefix, diverged, res.error);
+            continue;
+        }
+        let ct = canon(&res.trace, &res.raw_ids);
+        let lines = project(&ct);
+        let h = hash_lines(&lines);
+        let chosen: Vec<u16> = res.steps.iter().map(|s| s.chosen as u16).collect();
+        if !res.steps.is_empty() {
+            stats.execs_with_choice += 1;
+        }
+        if seen.insert(h) && !res.steps.is_empty() {
+            stats.distinct_nontrivial += 1;
+        }
+        if keep_lines {
+            sample_lines.entry(h).or_insert(lines);
+        }
+        by_schedule.insert(chosen.clone(), h);
+        stats.choice_points += res.steps.len() as u64;
+        stats.max_schedule_len = stats.max_schedule_len.max(res.steps.len() as u64);
+        for s in &res.steps {
+            stats.max_branch = stats.max_branch.max(s.n as u64);
+        }
+        let mut pre = 0u32;
+        let mut alts: Vec<Vec<u16>> = Vec::new();
+        for (i, s) in res.steps.iter().enumerate() {
+            if i >= prefix.len() {
+                for alt in 1..s.n {
+                    let cost = pre + if s.cont { 1 } else { 0 };
+                    if lim.bound.map(|b| cost <= b).unwrap_or(true) {
+                        let mut p: Vec<u16> = chosen[..i].to_vec();
+                        p.push(alt as u16);
+                        alts.push(p);
+                    } else {
+                        pruned += 1;
+                    }
+                }
+            }
+            if s.cont && s.chosen != 0 {
+                pre += 1;
+            }
+        }
+        while let Some(a) = alts.pop() {
+            stack.push(a);
+        }
+    }
+    stats.distinct_traces += seen.len() as u64;
+    stats.pruned_by_bound += pruned;
+    if capped {
+        stats.scenarios_capped += 1;
+    }
+    let exhaustive = !capped && pruned == 0;
+    if exhaustive {
+        stats.scenarios_exhaustive += 1;
+    }
+    Collected { by_schedule, exhaustive, sample_lines }
+}
+
+/// Compare a variant against its base: same schedule => same projected trace; if the schedule trees differ,
+/// the sets of projected traces of the two complete trees must be equal.
+pub fn compare_variant(base: &Collected, var: &Collected) -> Option<(Vec<u16>, String)> {
+    let same_shape = base.by_schedule.len() == var.by_schedule.len() && base.by_schedule.keys().all(|k| var.by_schedule.contains_key(k));
+    if same_shape {
+        for (k, hv) in &var.by_schedule {
+            if base.by_schedule[k] != *hv {
+                return Some((k.clone(), "the same schedule gives a different observable trace".to_string()));
+            }
+        }
+        return None;
+    }
+    if !(base.exhaustive && var.exhaustive) {
+        // bounded trees of different shape cannot be compared soundly: no verdict from this pair
+        return None;
+    }
+    let bs: HashSet<u64> = base.by_schedule.values().copied().collect();
+    let vs: HashSet<u64> = var.by_schedule.values().copied().collect();
+    for (k, hv) in &var.by_schedule {
+        if !bs.contains(hv) {
+            return Some((k.clone(), "an observable trace of this run is produced by no schedule of the reference run".to_string()));
+        }
+    }
+    for (k, hb) in &base.by_schedule {
+        if !vs.contains(hb) {
+            return Some((k.clone(), "REFERENCE-ONLY: an observable trace of the reference run is produced by no schedule of this run".to_string()));
+        }
+    }
+    None
 }
